@@ -96,9 +96,45 @@ def judge(obj, ver, what):
     return fails
 
 
+def stixdt_kwargs(doc, ver):
+    """Constructor keyword arguments in which every top-level timestamp is an already-built STIXdatetime that carries
+    *foreign* precision tags and sub-millisecond digits (e.g. the created/modified of a 2.1 object handed to a 2.0
+    constructor): the slot must re-clean it."""
+    from stix2.utils import STIXdatetime
+    import datetime as dt
+    import pytz
+    from oracle import tsref
+    m = M.get(ver)
+    cname = m.class_for_type(doc["type"]) or m.observables.get(doc["type"])
+    props = m.props(cname)
+    kw = {}
+    for k, v in doc.items():
+        d = props.get(k)
+        if d and d["kind"] == "timestamp" and isinstance(v, str):
+            try:
+                t, _, extra = tsref.parse(v)
+            except ValueError:
+                kw[k] = v
+                continue
+            days, rem = divmod(t, tsref.US_PER_DAY)
+            y, mo, dd = tsref.civil_from_days(days)
+            secs, us = divmod(rem, 10 ** 6)
+            us = us - us % 1000 + 456
+            kw[k] = STIXdatetime(y, mo, dd, secs // 3600, secs % 3600 // 60, secs % 60, us, tzinfo=pytz.utc, precision="millisecond", precision_constraint="min")
+        elif k != "type":
+            kw[k] = v
+    return kw
+
+
 def run_library(doc, ver, route):
     import stix2
     from stix2 import registry
+    if route == "constructor-stixdt":
+        t = doc.get("type")
+        cls = registry.class_for_type(t, ver, "objects") or registry.class_for_type(t, ver, "observables")
+        if cls is None:
+            return None, ValueError("no class")
+        return core.guarded(cls, **stixdt_kwargs(doc, ver))
     if route == "parse":
         return core.guarded(stix2.parse, doc, allow_custom=False, version=ver)
     if route == "parse-auto":
@@ -225,6 +261,11 @@ def run(ctx):
         fails = check_case(case0)
         ctx.note(case0, False, ["valid-base", "type:%s/%s" % (ver, doc["type"])])
         ctx.handle(case0, fails)
+        # the same object through the constructor with STIXdatetime values carrying foreign precision tags
+        case1 = {"ver": ver, "doc": doc, "corruptions": [], "route": "constructor-stixdt"}
+        fails = check_case(case1)
+        ctx.note(case1, True, ["valid-base:stixdt-values", "type:%s/%s" % (ver, doc["type"])])
+        ctx.handle(case1, fails)
         # deterministic stratified subset: every k-th corruption starting at a drawn offset (all of them when few)
         sampled_prefixes = ("kind:", "ref:", "ts:", "id:", "remove", "hash:")
         targeted = [c for c in cs if not c["kind"].startswith(sampled_prefixes)]
@@ -256,10 +297,13 @@ def run(ctx):
         shape = draw(st.sampled_from(["maximal", "maximal", "random", "minimal"]))
         if shape != "random":
             opts[shape] = True
+        if t == "observed-data" and ver == "2.0" and draw(st.booleans()):
+            opts["ref_rich"] = True
+            opts["maximal"] = True
         return ver, draw(G.valid_object(ver, type_=t, opts=opts)), shape
 
     per_type = max(2, ndocs // len(types))
-    for ver_t in types:
+    for ver_t in types + [("2.0", "observed-data")] * 3:
         strat = st.tuples(typed_doc(ver_t), st.integers(0, 10 ** 6), st.sampled_from(["parse", "parse", "parse-auto", "constructor"]))
         core.run_given(ctx, strat, body, per_type, label="c02-systematic-%s-%s" % ver_t, rounds=3)
 
